@@ -352,6 +352,7 @@ def run(ctx):
                 return h, None
         return None
     ev = PyEval(resolver=resolver)
+    ev.distinct_calls = lambda v_: func_def(v_[1]) is not None and id(func_def(v_[1])[0]) in role
     # nested helpers of the decoder that are not readers (`peek_top_two()`) are closures: evaluated in place
     for g_ in fn.body:
         if isinstance(g_, ast.FunctionDef) and id(g_) not in role and not any(isinstance(x, (ast.For, ast.While, ast.Yield, ast.YieldFrom)) for x in ast.walk(g_)) \
@@ -405,6 +406,12 @@ def run(ctx):
                     sub: list = []
                     reads_of(e.value, sub)
                     for x in sub:
+                        if x[0] in ('S', 'L'):
+                            # a read call is an event of its own, once per execution (five `x = read_list()` statements are five
+                            # reads although the five values are the same term); inside a later call it is only passed on
+                            if x[-1] is e.value or x[-1] == e.value and len(sub) == 1 and e.value[0] == 'call' and e.value[1] in (('name', 'next_byte'), ('name', 'read_list')):
+                                rd.append(x)
+                            continue
                         if id(x[-1]) not in seen and x[-1] not in seen:
                             seen.add(x[-1])
                             rd.append(x)
@@ -464,6 +471,16 @@ def run(ctx):
                     if s in used.values():
                         probs.append(f'{pname} and {[k for k, v in used.items() if v == s][0]} are read from the same slot {_slot_txt(s)}')
                     used[pname] = s
+                # every parameter the method requires is supplied (a star argument is not counted): a parameter the tracker binds
+                # to a stack slot that is left out replays nothing - the call fails
+                n_def = len(st.node.args.defaults)
+                required = params[:len(params) - n_def] if n_def else params
+                if not any(isinstance(a_, tuple) and a_[:1] == ('star',) for a_ in c[2]):
+                    given = set(params[:len(c[2])]) | {k_ for k_, _v in c[3]}
+                    miss = [p_ for p_ in required if p_ not in given]
+                    if miss or len(c[2]) > len(params):
+                        probs.append(f'the call supplies {len(c[2]) + len(c[3])} argument(s); {meth} takes ({", ".join(params)})'
+                                     + (f' - {miss} missing' if miss else ''))
                 ctx.ob('reader-slots', f'{op}/{meth}', not probs, f'{op}: ' + '; '.join(probs), where,
                        facts={'reader': {k: _slot_txt(v) for k, v in used.items()}, 'tracker': {k: _slot_txt(v) for k, v in binds.items()}})
                 # (3a) Load: the entry replayed is the memory entry the operand read addresses
